@@ -1,9 +1,9 @@
-\* partition ring, validity windows: 3 partitions in every state / state time, LRU cache of capacity 1 over 2 sizes,
-\* look-back queries at any time in any order
+\* partition ring, validity windows: 3 partitions in every state / state time, map cache and LRU caches of capacity 1 and 2
+\* over 2 sizes, look-back queries at any time in any order
 CONSTANTS
   Part = {1, 2, 3}
   Owners = {1}
-  PIdent = {1, 2}
+  PIdent = {1}
   PSizes = {1, 2}
   PLookbacks = {1}
   PTimes = {2, 3, 4, 5}
